@@ -503,6 +503,15 @@ static void c09_one(const std::string &num, const char *cls, bool malformed, vf:
     bool                with_term = !malformed && r.chance(1, 3);
     if (with_term) text += terms[r.below(5)];
     std::vector<Char_T> w(text.begin(), text.end());
+    if (sizeof(Char_T) > 1 && !with_term && r.chance(1, 3)) {
+        // wide builds: the unit after the numeral is not ASCII but its low byte is a digit, a point, an 'e' or a sign
+        static const unsigned wide[] = {0x0430, 0x0139, 0x4E35, 0x012E, 0x0165, 0x0145, 0x012B, 0x012D, 0xFF10, 0x0660};
+        unsigned              u      = wide[r.below(10)];
+        if (sizeof(Char_T) == 4 && r.chance(1, 3)) u += 0x10000;
+        w.push_back(Char_T(u));
+        text += "<wide unit>";
+        vf::count("c09_wide_followers");
+    }
     vf::ExactBuf<Char_T> buf(w.data(), w.size());
     QNumber64            n;
     n.Natural       = 0;
